@@ -13,6 +13,8 @@
 //	          after every store the file is read through the real getter; with "oneproc" all stores of the
 //	          history run in ONE child process on ONE long-lived store object (obj.go)
 //	reread    quick store / read sequences of same-length values on one long-lived store object (reread.go)
+//	paths     stores and reads through a configured path of every file-system shape (links, "..", relative
+//	          paths, other working directories ...) in a child process (paths.go)
 //
 // Large values and exact file sizes for the round trips: big.go.
 package main
@@ -91,7 +93,7 @@ type Step struct {
 }
 
 type Case struct {
-	Kind  string `json:"kind"`  // trace | sweep | roundtrip | history | reread
+	Kind  string `json:"kind"`  // trace | sweep | roundtrip | history | reread | paths
 	Store string `json:"store"` // ecdsa | frost | topology
 	Old   *Value `json:"old,omitempty"`
 	New   Value  `json:"new"`
@@ -115,6 +117,13 @@ type Case struct {
 	Pin  bool    `json:"pin,omitempty"`
 	// the sequence is run Episodes times (0 = once), each time on a fresh directory, file and store object
 	Episodes int `json:"episodes,omitempty"`
+	// paths (paths.go): the file-system shape of the configured path, the working directory of the process
+	// (home = the directory of the configured path | root | other | target = where a link leads) and
+	// whether the path is configured relative to the working directory; Old (optional) is there before,
+	// Vals are stored in order with a read after every store
+	Shape string `json:"shape,omitempty"`
+	Cwd   string `json:"cwd,omitempty"`
+	Rel   bool   `json:"rel,omitempty"`
 	G     int    `json:"g,omitempty"`    // trace: spacing of the write cut points the judge enumerates
 	Step  int    `json:"step,omitempty"` // sweep: 1 = every k; n > 1 = every k in the first and last 192 bytes and every n-th in between
 }
@@ -150,6 +159,9 @@ type Obs struct {
 	Reads   []ReadObs `json:"reads,omitempty"`
 	Lens    []int     `json:"lens,omitempty"`
 	SameTick int      `json:"sametick,omitempty"`
+	// paths: number of the value read before the first store (-1 = none) and what every store did
+	Prev  int       `json:"prev,omitempty"`
+	Paths []PathObs `json:"paths,omitempty"`
 }
 
 type ReadObs struct {
@@ -323,6 +335,8 @@ func childMain(mode string) {
 		ohistChild()
 	case "reread":
 		rereadChild()
+	case "paths":
+		pathsChild()
 	case "store":
 		// exactly one real Store call (the value is built before, so that the trace of the store
 		// itself is the tail of the system-call log after the marker file is touched)
@@ -887,6 +901,8 @@ func runCase(c Case) (o Obs) {
 		return runHistory(c, dir, path)
 	case "reread":
 		return runReread(c, dir)
+	case "paths":
+		return runPaths(c, dir)
 	case "roundtrip":
 		nv := c.New
 		if c.Size > 0 {
@@ -1042,13 +1058,14 @@ func genValue(r *vgen.Rng, store string) Value {
 	return genShare(r, r.Intn(3))
 }
 
-// gen interleaves one heavy case (trace / sweep: large literals) with three light ones (round trips) so
-// that the shards (4 cases each) cost about the same in the kernel.
+// gen interleaves one heavy case (trace / sweep / history: large literals) with six light ones (round
+// trips, reread and paths cases: a few constructors each) so that the shards (7 cases each) cost about
+// the same in the kernel.
 func gen(r *vgen.Rng, tier string) []Case {
 	all := genAll(r, tier)
 	var heavy, light, out []Case
 	for _, c := range all {
-		if c.Kind == "roundtrip" || c.Kind == "reread" {
+		if c.Kind == "roundtrip" || c.Kind == "reread" || c.Kind == "paths" {
 			light = append(light, c)
 		} else {
 			heavy = append(heavy, c)
@@ -1059,9 +1076,9 @@ func gen(r *vgen.Rng, tier string) []Case {
 			out = append(out, heavy[0])
 			heavy = heavy[1:]
 		}
-		n := 3
+		n := 6
 		if len(heavy) == 0 {
-			n = 4
+			n = 7
 		}
 		for i := 0; i < n && len(light) > 0; i++ {
 			out = append(out, light[0])
@@ -1410,6 +1427,7 @@ func genAll(r *vgen.Rng, tier string) []Case {
 	out = append(out, genHistories(r, thorough)...)
 	out = append(out, genObjHistories(r, thorough)...)
 	out = append(out, genRereads(r, thorough)...)
+	out = append(out, genPaths(r, thorough)...)
 	// failed-write sweeps at every byte offset 0..len
 	nsw := map[string]int{"topology": 6, "frost": 3, "ecdsa": 1}
 	if thorough {
@@ -1604,6 +1622,8 @@ func coq(c Case, o Obs) string {
 		return coqHistory(c, o)
 	case "reread":
 		return coqReread(c, o)
+	case "paths":
+		return coqPaths(c, o)
 	case "trace":
 		// the final contents usually are the data of one write: share the literal
 		return "(let d := " + lit(o.Final) + " in Trace " + vgen.N(uint64(c.G)) + " " + lit(o.Old) + " " +
@@ -1656,7 +1676,7 @@ func main() {
 		Gen:       gen,
 		Run:       run,
 		Coq:       coq,
-		ShardSize: 4,
+		ShardSize: 7,
 		Kind: func(c Case) string {
 			switch {
 			case c.Kind == "history" && c.OneProc:
@@ -1680,12 +1700,14 @@ func main() {
 				return len(o.Hist) >= 2
 			case "reread":
 				return rereadNonTrivial(c, o)
+			case "paths":
+				return pathsNonTrivial(c, o)
 			}
 			if isLarge(c) {
 				return o.Len > 16000
 			}
 			return c.Store != "topology" || len(c.New.Topo) > 0 || c.Size > 0
 		},
-		Rule: "traces: one real store of a generated value over a generated previous value per case, run under strace in a child process; sweeps: a child process repeats the real store with RLIMIT_FSIZE = k for k = 0..len (every byte offset, for all three stores) and reads back with the real getter; histories: 2..4 real stores of generated values of different lengths on one file, each in its own child process under strace over the leftovers of the earlier ones, completing / failing after k bytes (RLIMIT_FSIZE, SIGXFSZ ignored) / killed after k bytes (SIGXFSZ fatal) or on entry of fchmod, fsync, rename (SIGKILL), k chosen over the whole value and beyond the end of a shorter value stored later, the real getter after every store, for all three stores; one-process histories: 2..4 real stores (healthy / failing after k bytes, the last one possibly killed; retries of the same value included) in ONE child process on ONE long-lived store object, the getters of that object and of a fresh one after every store (both judged); quick store / read sequences (reread): per store 4 cases on ONE long-lived store object in one process, issued back to back without strace - 2..3 DIFFERENT values whose files have the SAME length (another threshold with the same number of digits, two peers exchanged, a peer id replaced, a port digit changed, two entries of the key material exchanged) stored alternately with a read through the getter of the long-lived object and of a fresh object after every store (200 stores in 20 episodes on fresh files; ECDSA 120), the same with the file's modification time pinned to one instant after every store (50 / 30 stores), and mixed sequences with a value of another length, stores without a read in between and repeated reads (pinned and not); round trips: topologies of 0..7 peers with 0..2 addresses each and thresholds 1..6, the three fixture ECDSA and FROST shares with generated thresholds and 0, 2..4 peers, large values (ECDSA committees of 10..100, FROST committees of 10..1000, peer lists of hundreds of ids, topologies of 100..1000 peers / 40 addresses per peer / multiaddrs of 250 and 5000 characters) and files of exactly 2^12, 2^16, 2^20 (+-1), one more power of two +-1, random sizes and 2^24+1 bytes for all three stores, the value read back stored again and compared byte for byte; distinct = distinct input JSON; non-trivial = trace with at least one translated operation / history of at least two observed stores / a reread sequence in which two different values of the same file length are stored one right after the other / sweep over a non-empty file / round trip of a key share or a topology with at least one peer (large values: a stored file of more than 16000 bytes)",
+		Rule: "traces: one real store of a generated value over a generated previous value per case, run under strace in a child process; sweeps: a child process repeats the real store with RLIMIT_FSIZE = k for k = 0..len (every byte offset, for all three stores) and reads back with the real getter; histories: 2..4 real stores of generated values of different lengths on one file, each in its own child process under strace over the leftovers of the earlier ones, completing / failing after k bytes (RLIMIT_FSIZE, SIGXFSZ ignored) / killed after k bytes (SIGXFSZ fatal) or on entry of fchmod, fsync, rename (SIGKILL), k chosen over the whole value and beyond the end of a shorter value stored later, the real getter after every store, for all three stores; one-process histories: 2..4 real stores (healthy / failing after k bytes, the last one possibly killed; retries of the same value included) in ONE child process on ONE long-lived store object, the getters of that object and of a fresh one after every store (both judged); quick store / read sequences (reread): per store 4 cases on ONE long-lived store object in one process, issued back to back without strace - 2..3 DIFFERENT values whose files have the SAME length (another threshold with the same number of digits, two peers exchanged, a peer id replaced, a port digit changed, two entries of the key material exchanged) stored alternately with a read through the getter of the long-lived object and of a fresh object after every store (200 stores in 20 episodes on fresh files; ECDSA 120), the same with the file's modification time pinned to one instant after every store (50 / 30 stores), and mixed sequences with a value of another length, stores without a read in between and repeated reads (pinned and not); round trips: topologies of 0..7 peers with 0..2 addresses each and thresholds 1..6, the three fixture ECDSA and FROST shares with generated thresholds and 0, 2..4 peers, large values (ECDSA committees of 10..100, FROST committees of 10..1000, peer lists of hundreds of ids, topologies of 100..1000 peers / 40 addresses per peer / multiaddrs of 250 and 5000 characters) and files of exactly 2^12, 2^16, 2^20 (+-1), one more power of two +-1, random sizes and 2^24+1 bytes for all three stores, the value read back stored again and compared byte for byte; path shapes (paths): per store and per shape of the configured path (26 shapes: plain file, links with relative / absolute targets, chains of links, dangling links, a link into a missing directory, a link to itself, linked directories, '.', '..', '//' components, '..' behind a linked directory, trailing slash, missing directory, a directory in the place of the file, read-only file / directory, a second hard link, a name with blanks and non-ASCII, a link six directories down) two cases (ECDSA: two for the link shapes, one otherwise) in a child process whose working directory is the path's directory, the root of the case, another directory or the directory a link leads to, the path configured absolute or relative to it, a previous value behind the shape in 4 of 5 cases, 2..4 values stored one after the other on one store object with a read through that object and through a fresh one on the same configured path after every store; distinct = distinct input JSON; non-trivial = a path case in which at least one store reported success on a shape other than the plain absolute file in its own directory / trace with at least one translated operation / history of at least two observed stores / a reread sequence in which two different values of the same file length are stored one right after the other / sweep over a non-empty file / round trip of a key share or a topology with at least one peer (large values: a stored file of more than 16000 bytes)",
 	})
 }
